@@ -164,6 +164,8 @@ fn gen_case(t: &mut Tape) -> Case {
         let mut generics: Vec<String> = vec![];
         for i in 0..np {
             let ty = match t.below(6) {
+                // a parameter beyond the call's arguments: often a generic container (made optional below)
+                0 | 1 if i >= nargs => Ty::Native(if t.bool() { "Sequence".into() } else { "Optional".into() }, vec![if t.bool() { var("T") } else { var("U") }]),
                 0 | 1 if around && i < nargs => args[i].clone(),
                 2 if around && i < nargs => {
                     // a generic pattern that may or may not fit the argument
@@ -186,7 +188,16 @@ fn gen_case(t: &mut Tape) -> Case {
             let mut vs = vec![];
             vars_of(&params[i].0, &mut vs);
             if !vs.is_empty() {
-                break;
+                // a generic parameter can be optional when a bottom-typed default exists; a call
+                // that omits it leaves the generic unbound (the overload still ranks as generic)
+                let d = match &params[i].0 {
+                    Ty::Native(n, a) if n == "Sequence" && matches!(a.as_slice(), [Ty::Var(_)]) => "[]",
+                    Ty::Native(n, a) if n == "Optional" && matches!(a.as_slice(), [Ty::Var(_)]) => "none()",
+                    _ => break,
+                };
+                params[i].1 = Some(d.into());
+                n_opt -= 1;
+                continue;
             }
             match value(&params[i].0) {
                 Some(v) => params[i].1 = Some(v),
